@@ -62,6 +62,17 @@ type stats struct {
 	seenAccepted, pendingReject                     bool
 	sawAdd, sawUpdate, sawDelete                    bool
 	updateByBodyOnly, repointSameBody, emptiedConf  bool
+
+	// degenerate but valid shapes
+	nilReqUsed, nilReqUnused, nilReqInBase         bool // an accepted configuration (the base) lists a nil request that is used / unused
+	nilReqStable                                   bool // unchanged target on an unchanged nil request: no call
+	nilReqStableAmongCalls                         bool // ... in a load that announced something for other targets
+	addUsesNil, updUsesNil, delUsedNil             bool // the announced target refers (referred) to a nil request
+	nilCallAmongOthers                             bool // ... and the same load announced something for another target as well
+	nilIntroduced, nilRemoved                      bool // a used request became nil / stopped being nil under the same name
+	rejectedWithNil                                bool // a rejected load carried a nil request that a target uses
+	emptyReqUsed, emptyCredUsed                    bool
+	reprEmptyMaps, reprNilInner, emptyMapsNoTarget bool
 }
 
 // nontrivial is the rule of DESIGN.md: an accepted load that changes a
@@ -119,6 +130,23 @@ func (s *stats) labels() []string {
 	add(s.sawDelete, "handler-delete")
 	add(s.bodyEditWithRepointOrRemove, "body-edit-and-repoint-or-remove-in-one-revision")
 	add(s.rejectedBetweenAccepted, "rejected-between-accepted")
+	add(s.nilReqUsed, "nil-request-used-by-a-target")
+	add(s.nilReqUnused, "nil-request-unused")
+	add(s.nilReqInBase, "nil-request-in-base")
+	add(s.nilReqStable, "unchanged-target-on-nil-request-no-call")
+	add(s.nilReqStableAmongCalls, "unchanged-target-on-nil-request-while-others-announced")
+	add(s.addUsesNil, "added-target-uses-nil-request")
+	add(s.updUsesNil, "updated-target-uses-nil-request")
+	add(s.delUsedNil, "deleted-target-used-nil-request")
+	add(s.nilCallAmongOthers, "call-with-nil-request-and-calls-for-other-targets-in-one-load")
+	add(s.nilIntroduced, "used-request-becomes-nil")
+	add(s.nilRemoved, "used-request-stops-being-nil")
+	add(s.rejectedWithNil, "rejected-load-with-used-nil-request")
+	add(s.emptyReqUsed, "empty-request-message-used")
+	add(s.emptyCredUsed, "empty-credentials-message")
+	add(s.reprEmptyMaps, "repr-empty-maps-non-nil")
+	add(s.emptyMapsNoTarget, "repr-empty-target-map-non-nil")
+	add(s.reprNilInner, "repr-oneof-wrapper-with-nil-message")
 	return l
 }
 
@@ -144,8 +172,17 @@ func sameRequest(a, b *gpb.SubscribeRequest) bool {
 }
 func sameConfig(a, b *pb.Configuration) bool { return sameMsg(a, b, a == nil, b == nil) }
 
+// noContent: a nil request or one equal to the empty message.
+func noContent(r *gpb.SubscribeRequest) bool {
+	return r == nil || proto.Equal(r, &gpb.SubscribeRequest{})
+}
+
 // diffViews describes how two views differ ("" if equal); deterministic.
-func diffViews(got, want map[string]entry) string {
+// nilReq names the targets whose request is, by the reference model, listed
+// with a nil message: Current() returns a copy, and copying turns a nil map
+// value into an empty message, so for exactly those targets "nil" and "empty
+// message" both stand for the request. Everywhere else nil and empty differ.
+func diffViews(got, want map[string]entry, nilReq map[string]bool) string {
 	names := map[string]bool{}
 	for n := range got {
 		names[n] = true
@@ -169,6 +206,10 @@ func diffViews(got, want map[string]entry) string {
 			d = append(d, fmt.Sprintf("target %q is in the replayed set but not in Current()", n))
 		case !sameTarget(g.tgt, w.tgt):
 			d = append(d, fmt.Sprintf("target %q: replayed settings {%v} != Current() settings {%v}", n, g.tgt, w.tgt))
+		case nilReq[n]:
+			if !noContent(g.req) || !noContent(w.req) {
+				d = append(d, fmt.Sprintf("target %q refers to a request listed without a message: replayed request {%v}, request of Current() {%v}", n, g.req, w.req))
+			}
 		case !sameRequest(g.req, w.req):
 			d = append(d, fmt.Sprintf("target %q: replayed request {%v} != request of Current() {%v}", n, g.req, w.req))
 		}
@@ -244,13 +285,17 @@ func run(sc *Scenario) (st stats, err error) {
 			return st, vio("bad-scenario", "bad scenario: base configuration is invalid (%v)", r)
 		}
 		st.withBase = true
-		c, cerr := target.NewConfigWithBase(h, sc.Base.build())
+		c, cerr := target.NewConfigWithBase(h, sc.Base.buildRepr(sc.BaseRepr))
 		if cerr != nil || c == nil {
 			return st, vio("constructor", "NewConfigWithBase(h, valid base %v) = %v, %v", sc.Base, c, cerr)
 		}
 		cfg = c
 		cur = sc.Base.clone()
 		replayed = view(cur.build())
+		st.noteRepr(sc.BaseRepr, cur)
+		if len(cur.nilRequestTargets()) > 0 {
+			st.nilReqInBase = true
+		}
 	default:
 		return st, vio("bad-scenario", "bad scenario: base_mode %q", sc.BaseMode)
 	}
@@ -276,13 +321,18 @@ func run(sc *Scenario) (st stats, err error) {
 			if verr := target.Validate(spec.build()); (verr == nil) != valid {
 				return st, vio("validate-mismatch", "load %d: Validate(%v) returned an error: %v; the reference predicate says invalid reasons = %v", i, spec, verr != nil, reasons)
 			}
+			if ld.Repr != 0 {
+				if verr := target.Validate(spec.buildRepr(ld.Repr)); (verr == nil) != valid {
+					return st, vio("validate-mismatch", "load %d: Validate(%v in representation %d) returned an error: %v; the reference predicate says invalid reasons = %v", i, spec, ld.Repr, verr != nil, reasons)
+				}
+			}
 		}
 		revOK := spec != nil && (cur == nil || spec.Rev > cur.Rev)
 		want := valid && revOK
 
 		var in *pb.Configuration
 		if spec != nil {
-			in = spec.build()
+			in = spec.buildRepr(ld.Repr)
 		}
 		before := cfg.Current()
 		calls = nil
@@ -300,7 +350,11 @@ func run(sc *Scenario) (st stats, err error) {
 
 		desc := fmt.Sprintf("load %d (current=%v, loaded=%v)", i, cur, spec)
 		if (gerr == nil) != want {
-			return st, vio("gate", "%s: Load returned %v; expected accepted=%v (valid=%v %v, revision strictly greater or no current configuration=%v)", desc, gerr, want, valid, reasons, revOK)
+			var ran string
+			if gerr != nil && len(got) > 0 {
+				ran = fmt.Sprintf("; the load that returned this error had already run handlers %s and Current() unchanged=%v", callList(got), sameConfig(before, after))
+			}
+			return st, vio("gate", "%s: Load returned %v; expected accepted=%v (valid=%v %v, revision strictly greater or no current configuration=%v)%s", desc, gerr, want, valid, reasons, revOK, ran)
 		}
 
 		if !want {
@@ -331,6 +385,9 @@ func run(sc *Scenario) (st stats, err error) {
 			}
 			if st.seenAccepted {
 				st.pendingReject = true
+			}
+			if spec != nil && len(spec.nilRequestTargets()) > 0 {
+				st.rejectedWithNil = true
 			}
 			continue
 		}
@@ -488,12 +545,96 @@ func run(sc *Scenario) (st stats, err error) {
 				delete(replayed, c.name)
 			}
 		}
-		if d := diffViews(replayed, view(after)); d != "" {
+		nilNew := spec.nilRequestTargets()
+		if d := diffViews(replayed, view(after), nilNew); d != "" {
 			return st, vio("replay-mismatch", "%s: replaying the handler calls %s does not yield Current(): %s", desc, callList(got), d)
 		}
+		st.noteDegenerate(old, spec, got, perName)
+		st.noteRepr(ld.Repr, spec)
 		cur = spec
 	}
 	return st, nil
+}
+
+// noteRepr records the representation a configuration was handed over in.
+func (st *stats) noteRepr(repr int, spec *ConfigSpec) {
+	if repr&reprEmptyMaps != 0 {
+		st.reprEmptyMaps = true
+		if len(spec.Targets) == 0 {
+			st.emptyMapsNoTarget = true
+		}
+	}
+	if repr&reprNilInner != 0 {
+		for _, b := range spec.Requests {
+			if normBody(b) == 2 {
+				st.reprNilInner = true
+			}
+		}
+	}
+}
+
+// noteDegenerate records which of the degenerate-but-valid shapes an accepted
+// load old -> spec (handler calls got) exercised.
+func (st *stats) noteDegenerate(old, spec *ConfigSpec, got []call, perName map[string]int) {
+	nilOld, nilNew := old.nilRequestTargets(), spec.nilRequestTargets()
+	used := map[string]bool{}
+	for _, t := range spec.Targets {
+		used[t.Req] = true
+		if normCred(t.Cred) == credEmpty {
+			st.emptyCredUsed = true
+		}
+	}
+	for rn, b := range spec.Requests {
+		switch normBody(b) {
+		case bodyNil:
+			if used[rn] {
+				st.nilReqUsed = true
+			} else {
+				st.nilReqUnused = true
+			}
+		case bodyEmpty:
+			if used[rn] {
+				st.emptyReqUsed = true
+			}
+		}
+	}
+	withNil := 0
+	for _, c := range got {
+		switch {
+		case c.kind == "add" && nilNew[c.name]:
+			st.addUsesNil = true
+			withNil++
+		case c.kind == "update" && nilNew[c.name]:
+			st.updUsesNil = true
+			withNil++
+		case c.kind == "delete" && nilOld[c.name]:
+			st.delUsedNil = true
+			withNil++
+		}
+	}
+	if withNil > 0 && len(got) > 1 {
+		st.nilCallAmongOthers = true
+	}
+	for n := range nilNew {
+		ot, ok := old.Targets[n]
+		if !ok {
+			continue
+		}
+		switch {
+		case nilOld[n] && ot == spec.Targets[n] && perName[n] == 0:
+			st.nilReqStable = true
+			if len(got) > 0 {
+				st.nilReqStableAmongCalls = true
+			}
+		case !nilOld[n] && ot.Req == spec.Targets[n].Req:
+			st.nilIntroduced = true
+		}
+	}
+	for n := range nilOld {
+		if nt, ok := spec.Targets[n]; ok && !nilNew[n] && nt.Req == old.Targets[n].Req {
+			st.nilRemoved = true
+		}
+	}
 }
 
 func cloneT(t *pb.Target) *pb.Target {
